@@ -261,6 +261,10 @@ func (app *App) stateLost() appState {
 		app.t.Clean(ZKHALost, node.Host())
 		return stateCandidate
 	}
+	if app.doesMaintenanceFileExist() {
+		// paused (full maintenance acknowledged) before the connection was lost: stay paused
+		return stateMaintenance
+	}
 	if len(app.cluster.HANodeHosts()) == 1 || !app.cluster.IsHAHost(app.cluster.Local().Host()) {
 		// do nothing for 1-node clusters or not ha hosts
 		return stateLost
